@@ -9,9 +9,10 @@ import common
 import xref
 from common import Stats, hx, unhx
 
-ALPHA_DEFAULT = [b"a", "é".encode(), b" ", b"\n", b"\t", b"'", b'"', b"\\"]
-ALPHA_NUL = [b"a", "é".encode(), b"\0", b"'", b"\\", b" ", b"\n", b'"']
-ALPHA_COMMA = [b"a", "é".encode(), b",", b"'", b"\\", b" ", b"\n", b'"']
+# the 2-byte letter is 'à' (C3 A0): its continuation byte is NBSP when mis-read as Latin-1; it is an ordinary character here
+ALPHA_DEFAULT = [b"a", "à".encode(), b" ", b"\n", b"\t", b"'", b'"', b"\\"]
+ALPHA_NUL = [b"a", "à".encode(), b"\0", b"'", b"\\", b" ", b"\n", b'"']
+ALPHA_COMMA = [b"a", "à".encode(), b",", b"'", b"\\", b" ", b"\n", b'"']
 
 
 def parse_tokens(s):
@@ -113,7 +114,10 @@ def exhaustive_worker(job):
     return st
 
 
-WORDS = [b"a", b"bc", b"x" * 7, "é".encode(), "日本".encode(), b"tok", b"w" * 40]
+# multi-byte words include characters whose continuation bytes are 0x85 / 0xA0 (NEL / NBSP in Latin-1) and the real NBSP, NEL, and
+# other Unicode blanks: in default mode only ASCII blank, tab and newline separate arguments
+WORDS = [b"a", b"bc", b"x" * 7, "é".encode(), "日本".encode(), b"tok", b"w" * 40, "à".encode(), "Å".encode(), "亅".encode(), "a\u00a0b".encode(),
+         "n\u0085l".encode(), "\u2003em".encode(), "ẅ\u3000".encode(), "🙂".encode()]
 
 
 def long_input(rng, target_len, delim=None):
